@@ -562,7 +562,7 @@ def run_conc(tier, seed):
     path = os.path.join(common.CACHE, f"e5-conc-{os.getpid()}.json")
     keys = ("given", "raised", "errclass", "val", "exec", "dup", "async", "built", "twice", "constret", "conc", "loop", "pre")
     with open(path, "w") as f:
-        json.dump({"progs": stripped, "obs": [{"p": r["p"], "fresh_same": True, **{k: r[k] for k in keys}} for r in obs]}, f)
+        json.dump({"progs": stripped, "obs": [{"p": r["p"], "fresh_same": True, "wrongthread": False, **{k: r[k] for k in keys}} for r in obs]}, f)
     try:
         r = tlc.run_tlc("DfCheck", "DfCheck.cfg", env={"CASE_FILE": path}, workers=1, heap="3g", timeout=3600)
     finally:
